@@ -2,6 +2,8 @@
 import math
 import warnings
 
+import sys
+
 import numpy as np
 
 from .. import common, gen_all, curves, fits
@@ -297,4 +299,4 @@ def check(run):
 
 
 def replay(rec):
-    return True
+    return common.replay_by_rerun(sys.modules[__name__], rec)
